@@ -1,15 +1,919 @@
 //go:build verif
 
+// Driver for C20: pkg/bydbql ParseQuery / BindParams / Prepare / Bind / Transform / TransformBound and the
+// liaison's prepared-statement cache (banyand/liaison/grpc/bydbql_cache.go), all run in-process on the real code.
+//
+// ops (one line in, one line out):
+//
+//	ast  <stmt-hex>                                                     -> T=<canonical template AST> | PARSEERR
+//	bind <stmt-hex> <ast> <lit1-hex|-> <lit2-hex|-> <params1> <params2> -> <model part> ## <oracle part>
+//
+// model part (reproduced byte for byte by the Lean model):
+//
+//	T= template dump, B1=/B2= dump after BindParams(params1/2) or ERR:<kind>:<idx>, PT= template after Prepare
+//	(placeholders numbered), SP= placeholder specs, O1=/O2= overlay of Bind(params1/2) or ERR
+//
+// oracle part (implementation only, judged by checks/C20.py): purity/leak flags, literal-AST equality,
+// request hashes through every path (literal, in-place bind, prepared, liaison cache).
 package main
 
 import (
+	"context"
+	"crypto/sha1"
+	"encoding/hex"
 	"fmt"
+	"os"
+	"sort"
+	"strconv"
+	"strings"
+	"time"
 
+	"google.golang.org/protobuf/encoding/prototext"
+	"google.golang.org/protobuf/proto"
+	"google.golang.org/protobuf/reflect/protoreflect"
+	"google.golang.org/protobuf/types/known/timestamppb"
+
+	commonv1 "github.com/apache/skywalking-banyandb/api/proto/banyandb/common/v1"
+	databasev1 "github.com/apache/skywalking-banyandb/api/proto/banyandb/database/v1"
+	measurev1 "github.com/apache/skywalking-banyandb/api/proto/banyandb/measure/v1"
+	modelv1 "github.com/apache/skywalking-banyandb/api/proto/banyandb/model/v1"
+	propertyv1 "github.com/apache/skywalking-banyandb/api/proto/banyandb/property/v1"
+	streamv1 "github.com/apache/skywalking-banyandb/api/proto/banyandb/stream/v1"
+	"github.com/apache/skywalking-banyandb/banyand/internal/verifdrv/drv"
 	lgrpc "github.com/apache/skywalking-banyandb/banyand/liaison/grpc"
+	"github.com/apache/skywalking-banyandb/banyand/metadata"
+	"github.com/apache/skywalking-banyandb/banyand/metadata/schema"
+	"github.com/apache/skywalking-banyandb/pkg/bydbql"
 )
 
+// ---------------------------------------------------------------------------------------------
+// fake schema registry (mockgen output is absent from the tree)
+
+type fakeRepo struct {
+	metadata.Repo
+}
+
+type fakeStream struct{ schema.Stream }
+
+type fakeMeasure struct{ schema.Measure }
+
+type fakeTrace struct{ schema.Trace }
+
+type fakeProperty struct{ schema.Property }
+
+type fakeTopN struct{ schema.TopNAggregation }
+
+func (fakeRepo) StreamRegistry() schema.Stream                   { return fakeStream{} }
+func (fakeRepo) MeasureRegistry() schema.Measure                 { return fakeMeasure{} }
+func (fakeRepo) TraceRegistry() schema.Trace                     { return fakeTrace{} }
+func (fakeRepo) PropertyRegistry() schema.Property               { return fakeProperty{} }
+func (fakeRepo) TopNAggregationRegistry() schema.TopNAggregation { return fakeTopN{} }
+
+func tag(n string, t databasev1.TagType) *databasev1.TagSpec {
+	return &databasev1.TagSpec{Name: n, Type: t}
+}
+
+func knownGroup(g string) bool { return g == "default" || g == "g2" }
+
+func (fakeStream) GetStream(_ context.Context, md *commonv1.Metadata) (*databasev1.Stream, error) {
+	if md.Name != "sw" || !knownGroup(md.Group) {
+		return nil, fmt.Errorf("stream not found")
+	}
+	return &databasev1.Stream{
+		Metadata: &commonv1.Metadata{Name: "sw", Group: md.Group},
+		TagFamilies: []*databasev1.TagFamilySpec{
+			{Name: "searchable", Tags: []*databasev1.TagSpec{
+				tag("service_id", databasev1.TagType_TAG_TYPE_STRING),
+				tag("message", databasev1.TagType_TAG_TYPE_STRING),
+				tag("tags", databasev1.TagType_TAG_TYPE_STRING_ARRAY),
+				tag("duration", databasev1.TagType_TAG_TYPE_INT),
+				tag("codes", databasev1.TagType_TAG_TYPE_INT_ARRAY),
+				tag("created_at", databasev1.TagType_TAG_TYPE_TIMESTAMP),
+			}},
+			{Name: "data", Tags: []*databasev1.TagSpec{
+				tag("payload", databasev1.TagType_TAG_TYPE_DATA_BINARY),
+			}},
+		},
+	}, nil
+}
+
+func (fakeMeasure) GetMeasure(_ context.Context, md *commonv1.Metadata) (*databasev1.Measure, error) {
+	if md.Name != "svc_metrics" || !knownGroup(md.Group) {
+		return nil, fmt.Errorf("measure not found")
+	}
+	return &databasev1.Measure{
+		Metadata: &commonv1.Metadata{Name: "svc_metrics", Group: md.Group},
+		TagFamilies: []*databasev1.TagFamilySpec{{Name: "default", Tags: []*databasev1.TagSpec{
+			tag("service", databasev1.TagType_TAG_TYPE_STRING),
+			tag("instance", databasev1.TagType_TAG_TYPE_STRING),
+			tag("code", databasev1.TagType_TAG_TYPE_INT),
+			tag("labels", databasev1.TagType_TAG_TYPE_STRING_ARRAY),
+		}}},
+		Fields: []*databasev1.FieldSpec{
+			{Name: "value", FieldType: databasev1.FieldType_FIELD_TYPE_INT},
+			{Name: "total", FieldType: databasev1.FieldType_FIELD_TYPE_INT},
+		},
+	}, nil
+}
+
+func (fakeTopN) GetTopNAggregation(_ context.Context, md *commonv1.Metadata) (*databasev1.TopNAggregation, error) {
+	if md.Name != "svc_topn" || !knownGroup(md.Group) {
+		return nil, fmt.Errorf("topn aggregation not found")
+	}
+	return &databasev1.TopNAggregation{
+		Metadata:      &commonv1.Metadata{Name: "svc_topn", Group: md.Group},
+		SourceMeasure: &commonv1.Metadata{Name: "svc_metrics", Group: md.Group},
+	}, nil
+}
+
+func (fakeTrace) GetTrace(_ context.Context, md *commonv1.Metadata) (*databasev1.Trace, error) {
+	if md.Name != "sw_trace" || !knownGroup(md.Group) {
+		return nil, fmt.Errorf("trace not found")
+	}
+	return &databasev1.Trace{
+		Metadata: &commonv1.Metadata{Name: "sw_trace", Group: md.Group},
+		Tags: []*databasev1.TraceTagSpec{
+			{Name: "trace_id", Type: databasev1.TagType_TAG_TYPE_STRING},
+			{Name: "service_id", Type: databasev1.TagType_TAG_TYPE_STRING},
+			{Name: "status", Type: databasev1.TagType_TAG_TYPE_STRING},
+			{Name: "duration", Type: databasev1.TagType_TAG_TYPE_INT},
+			{Name: "span_tags", Type: databasev1.TagType_TAG_TYPE_STRING_ARRAY},
+		},
+	}, nil
+}
+
+func (fakeProperty) GetProperty(_ context.Context, md *commonv1.Metadata) (*databasev1.Property, error) {
+	if md.Name != "sw_prop" || !knownGroup(md.Group) {
+		return nil, fmt.Errorf("property not found")
+	}
+	return &databasev1.Property{
+		Metadata: &commonv1.Metadata{Name: "sw_prop", Group: md.Group},
+		Tags: []*databasev1.TagSpec{
+			tag("env", databasev1.TagType_TAG_TYPE_STRING),
+			tag("weight", databasev1.TagType_TAG_TYPE_INT),
+			tag("labels", databasev1.TagType_TAG_TYPE_STRING_ARRAY),
+		},
+	}, nil
+}
+
+// ---------------------------------------------------------------------------------------------
+// canonical AST dump (no whitespace; strings hex-encoded)
+
+func hx(s string) string { return hex.EncodeToString([]byte(s)) }
+
+func dumpValue(v *bydbql.GrammarValue) string {
+	if v == nil {
+		return "x(nil)"
+	}
+	set := 0
+	if v.String != nil {
+		set++
+	}
+	if v.Integer != nil {
+		set++
+	}
+	if v.Null {
+		set++
+	}
+	if v.Param {
+		set++
+	}
+	if set != 1 {
+		return fmt.Sprintf("x(%v.%v.%v.%v)", v.String != nil, v.Integer != nil, v.Null, v.Param)
+	}
+	switch {
+	case v.Param:
+		return "p" + strconv.Itoa(v.ParamIndex)
+	case v.String != nil:
+		return "s" + hx(*v.String)
+	case v.Integer != nil:
+		return "i" + strconv.FormatInt(*v.Integer, 10)
+	default:
+		return "n"
+	}
+}
+
+func dumpTimeValue(v *bydbql.GrammarTimeValue) string {
+	if v == nil {
+		return "x(nil)"
+	}
+	set := 0
+	if v.String != nil {
+		set++
+	}
+	if v.Integer != nil {
+		set++
+	}
+	if v.Param {
+		set++
+	}
+	if set != 1 {
+		return fmt.Sprintf("x(%v.%v.%v)", v.String != nil, v.Integer != nil, v.Param)
+	}
+	switch {
+	case v.Param:
+		return "p" + strconv.Itoa(v.ParamIndex)
+	case v.String != nil:
+		return "s" + hx(*v.String)
+	default:
+		return "i" + strconv.FormatInt(*v.Integer, 10)
+	}
+}
+
+func dumpCount(value int, param bool, idx int) string {
+	if param {
+		if value != 0 {
+			return fmt.Sprintf("x(%d.param)", value)
+		}
+		return "p" + strconv.Itoa(idx)
+	}
+	return "c" + strconv.Itoa(value)
+}
+
+func identStr(id *bydbql.GrammarIdentifierPath) string {
+	if id == nil {
+		return "nil"
+	}
+	if id.QuotedIdent != nil {
+		return "q:" + *id.QuotedIdent
+	}
+	part := func(p *bydbql.GrammarIdentifierPart) string {
+		if p == nil {
+			return "nil"
+		}
+		if p.Ident != nil {
+			return "i:" + *p.Ident
+		}
+		if p.Keyword != nil {
+			return "k:" + *p.Keyword
+		}
+		return "?"
+	}
+	parts := []string{part(id.First)}
+	for _, r := range id.Rest {
+		parts = append(parts, part(r))
+	}
+	return strings.Join(parts, ".")
+}
+
+func optStr(s *string) string {
+	if s == nil {
+		return "_"
+	}
+	return "h" + hx(*s)
+}
+
+func dumpVals(tagName string, vs []*bydbql.GrammarValue) string {
+	parts := make([]string, len(vs))
+	for i, v := range vs {
+		parts[i] = dumpValue(v)
+	}
+	return tagName + "(" + strings.Join(parts, ",") + ")"
+}
+
+func dumpMulti(single *bydbql.GrammarValue, array []*bydbql.GrammarValue) string {
+	if single != nil {
+		if array != nil {
+			return "x(single+array)"
+		}
+		return "one(" + dumpValue(single) + ")"
+	}
+	return dumpVals("arr", array)
+}
+
+func dumpPred(p *bydbql.GrammarPredicate) string {
+	switch {
+	case p == nil:
+		return "x(nilpred)"
+	case p.Paren != nil:
+		return "par(" + dumpOr(p.Paren) + ")"
+	case p.Binary != nil:
+		b := p.Binary
+		if b.Tail == nil {
+			return "x(niltail)"
+		}
+		if b.Tail.Compare != nil {
+			return "cmp(h" + hx(identStr(b.Identifier)) + ",h" + hx(b.Tail.Compare.Operator) + "," + dumpValue(b.Tail.Compare.Value) + ")"
+		}
+		if m := b.Tail.Match; m != nil {
+			if m.Values == nil {
+				return "x(nilmatchvalues)"
+			}
+			return "mat(h" + hx(identStr(b.Identifier)) + "," + dumpMulti(m.Values.Single, m.Values.Array) + "," + optStr(m.Analyzer) + "," + optStr(m.Operator) + ")"
+		}
+		return "x(emptytail)"
+	case p.In != nil:
+		in := p.In
+		not := "0"
+		if in.Not != nil {
+			not = "1"
+		}
+		parts := []string{"h" + hx(identStr(in.Identifier)), not}
+		for _, v := range in.Values {
+			parts = append(parts, dumpValue(v))
+		}
+		return "in(" + strings.Join(parts, ",") + ")"
+	case p.Having != nil:
+		h := p.Having
+		not := "0"
+		if h.Not != nil {
+			not = "1"
+		}
+		if h.Values == nil {
+			return "x(nilhavingvalues)"
+		}
+		return "hav(h" + hx(identStr(h.Identifier)) + "," + not + "," + dumpMulti(h.Values.Single, h.Values.Array) + ")"
+	}
+	return "x(emptypred)"
+}
+
+func dumpAnd(a *bydbql.GrammarAndExpr) string {
+	if a == nil {
+		return "x(niland)"
+	}
+	parts := []string{dumpPred(a.Left)}
+	for _, r := range a.Right {
+		parts = append(parts, dumpPred(r.Right))
+	}
+	return "and(" + strings.Join(parts, ",") + ")"
+}
+
+func dumpOr(o *bydbql.GrammarOrExpr) string {
+	if o == nil {
+		return "x(nilor)"
+	}
+	parts := []string{dumpAnd(o.Left)}
+	for _, r := range o.Right {
+		parts = append(parts, dumpAnd(r.Right))
+	}
+	return "or(" + strings.Join(parts, ",") + ")"
+}
+
+func dumpTime(t *bydbql.GrammarTimeClause) string {
+	if t == nil {
+		return "_"
+	}
+	if t.Between != nil {
+		if t.Value != nil || t.Comparator != nil {
+			return "x(time-both)"
+		}
+		return "tb(" + dumpTimeValue(t.Between.Begin) + "," + dumpTimeValue(t.Between.End) + ")"
+	}
+	if t.Comparator == nil {
+		return "x(time-nocmp)"
+	}
+	return "tc(h" + hx(*t.Comparator) + "," + dumpTimeValue(t.Value) + ")"
+}
+
+func colStr(c *bydbql.GrammarColumn) string {
+	s := ""
+	if c.Aggregate != nil {
+		s = "agg:" + c.Aggregate.Function + "(" + identStr(c.Aggregate.Column) + ")"
+	} else {
+		s = identStr(c.Identifier)
+	}
+	if c.TypeSpec != nil {
+		s += "::" + *c.TypeSpec
+	}
+	return s
+}
+
+func fromStr(f *bydbql.GrammarFromClause) string {
+	if f == nil {
+		return "from=nil"
+	}
+	s := "from=" + f.ResourceType + " " + f.ResourceName
+	if f.In != nil {
+		s += fmt.Sprintf(" in[%v%v]=%s", f.In.LParen, f.In.RParen, strings.Join(f.In.Groups, "|"))
+	}
+	if f.Stage != nil {
+		s += fmt.Sprintf(" on[%v%v]=%s", f.Stage.LParen, f.Stage.RParen, strings.Join(f.Stage.Stages, "|"))
+	}
+	return s
+}
+
+func sp(s *string) string {
+	if s == nil {
+		return "-"
+	}
+	return *s
+}
+
+func dumpGrammar(g *bydbql.Grammar) string {
+	bound := "0"
+	if bydbql.VerifC20ParamsBound(g) {
+		bound = "1"
+	}
+	switch {
+	case g.Select != nil && g.TopN != nil:
+		return "x(select+topn)"
+	case g.Select != nil:
+		s := g.Select
+		hdr := "proj="
+		topn := "_"
+		if p := s.Projection; p != nil {
+			switch {
+			case p.All:
+				hdr += "*"
+			case p.Empty:
+				hdr += "()"
+			case p.TopN != nil:
+				hdr += "top " + identStr(p.TopN.OrderField) + " " + sp(p.TopN.Direction)
+				for _, c := range p.TopN.OtherColumns {
+					hdr += "," + colStr(c)
+				}
+				topn = dumpCount(p.TopN.N, p.TopN.NParam, p.TopN.NParamIndex)
+			default:
+				cols := make([]string, len(p.Columns))
+				for i, c := range p.Columns {
+					cols[i] = colStr(c)
+				}
+				hdr += strings.Join(cols, ",")
+			}
+		} else {
+			hdr += "nil"
+		}
+		hdr += ";" + fromStr(s.From)
+		where := "_"
+		if s.Where != nil {
+			where = dumpOr(s.Where.Expr)
+		}
+		mid := ""
+		if s.GroupBy != nil {
+			cols := make([]string, len(s.GroupBy.Columns))
+			for i, c := range s.GroupBy.Columns {
+				cols[i] = identStr(c.Identifier) + "::" + sp(c.TypeSpec)
+			}
+			mid += "groupby=" + strings.Join(cols, ",") + ";"
+		}
+		if s.OrderBy != nil {
+			if s.OrderBy.Tail.DirOnly != nil {
+				mid += "orderby=dir:" + *s.OrderBy.Tail.DirOnly + ";"
+			} else if w := s.OrderBy.Tail.WithIdent; w != nil {
+				mid += "orderby=" + identStr(w.Identifier) + " " + sp(w.Direction) + ";"
+			}
+		}
+		if s.WithQueryTrace != nil {
+			mid += "trace;"
+		}
+		limit, offset := "_", "_"
+		if s.Limit != nil {
+			limit = dumpCount(s.Limit.Value, s.Limit.Param, s.Limit.ParamIndex)
+		}
+		if s.Offset != nil {
+			offset = dumpCount(s.Offset.Value, s.Offset.Param, s.Offset.ParamIndex)
+		}
+		return "sel(h" + hx(hdr) + "," + topn + "," + dumpTime(s.Time) + "," + where + ",h" + hx(mid) + "," + limit + "," + offset + "," + bound + ")"
+	case g.TopN != nil:
+		t := g.TopN
+		hdr := fromStr(t.From)
+		where := "_"
+		if t.Where != nil {
+			where = dumpAnd(t.Where.Expr)
+		}
+		tail := ""
+		if t.AggregateBy != nil && t.AggregateBy.Function != nil {
+			tail += "agg=" + t.AggregateBy.Function.Function + ";"
+		}
+		if t.OrderBy != nil {
+			tail += "orderby=" + sp(t.OrderBy.Dir) + ";"
+		}
+		if t.WithQueryTrace != nil {
+			tail += "trace;"
+		}
+		return "top(h" + hx(hdr) + "," + dumpCount(t.N, t.NParam, t.NParamIndex) + "," + dumpTime(t.Time) + "," + where + ",h" + hx(tail) + "," + bound + ")"
+	}
+	return "x(empty)"
+}
+
+func dumpSpecs(ps *bydbql.PreparedStatement) string {
+	specs := bydbql.VerifC20Specs(ps)
+	parts := make([]string, len(specs))
+	for i, s := range specs {
+		switch s.Kind {
+		case 0:
+			parts[i] = "S"
+		case 1:
+			parts[i] = "L"
+		case 2:
+			parts[i] = "T"
+		case 3:
+			parts[i] = "C" + strconv.FormatInt(s.Max, 10)
+		default:
+			parts[i] = "x"
+		}
+		if s.Kind != 3 && s.Max != 0 {
+			parts[i] += "x"
+		}
+	}
+	return "sp(" + strings.Join(parts, ",") + ")"
+}
+
+func dumpOverlay(bq *bydbql.BoundQuery) string {
+	specs := bydbql.VerifC20Specs(bydbql.VerifC20Stmt(bq))
+	ov := bydbql.VerifC20Overlay(bq)
+	if len(specs) != len(ov) {
+		return "x(overlay-len)"
+	}
+	parts := make([]string, len(ov))
+	for i, r := range ov {
+		switch specs[i].Kind {
+		case 0, 1:
+			if r.Time != "" || r.Count != 0 {
+				parts[i] = "x(mixed)"
+			} else {
+				parts[i] = dumpVals("v", r.Values)
+			}
+		case 2:
+			if r.Values != nil || r.Count != 0 {
+				parts[i] = "x(mixed)"
+			} else {
+				parts[i] = "t" + hx(r.Time)
+			}
+		case 3:
+			if r.Values != nil || r.Time != "" {
+				parts[i] = "x(mixed)"
+			} else {
+				parts[i] = "c" + strconv.Itoa(r.Count)
+			}
+		}
+	}
+	return "ov(" + strings.Join(parts, ",") + ")"
+}
+
+// ---------------------------------------------------------------------------------------------
+// parameters
+
+func unhexS(s string) string {
+	b, err := hex.DecodeString(s)
+	if err != nil {
+		panic("bad hex in protocol: " + s)
+	}
+	return string(b)
+}
+
+func parseParam(s string) *modelv1.TagValue {
+	if s == "" {
+		panic("empty param")
+	}
+	rest := s[1:]
+	switch s[0] {
+	case 'N':
+		return nil
+	case 'V':
+		return &modelv1.TagValue{}
+	case 'n':
+		return &modelv1.TagValue{Value: &modelv1.TagValue_Null{}}
+	case 's':
+		if rest == "~" {
+			return &modelv1.TagValue{Value: &modelv1.TagValue_Str{}}
+		}
+		return &modelv1.TagValue{Value: &modelv1.TagValue_Str{Str: &modelv1.Str{Value: unhexS(rest)}}}
+	case 'i':
+		if rest == "~" {
+			return &modelv1.TagValue{Value: &modelv1.TagValue_Int{}}
+		}
+		v, err := strconv.ParseInt(rest, 10, 64)
+		if err != nil {
+			panic(err)
+		}
+		return &modelv1.TagValue{Value: &modelv1.TagValue_Int{Int: &modelv1.Int{Value: v}}}
+	case 'S':
+		if rest == "~" {
+			return &modelv1.TagValue{Value: &modelv1.TagValue_StrArray{}}
+		}
+		f := strings.Split(rest, ":")
+		n, err := strconv.Atoi(f[0])
+		if err != nil || n != len(f)-1 {
+			panic("bad str array " + s)
+		}
+		arr := make([]string, n)
+		for i := range arr {
+			arr[i] = unhexS(f[i+1])
+		}
+		return &modelv1.TagValue{Value: &modelv1.TagValue_StrArray{StrArray: &modelv1.StrArray{Value: arr}}}
+	case 'I':
+		if rest == "~" {
+			return &modelv1.TagValue{Value: &modelv1.TagValue_IntArray{}}
+		}
+		f := strings.Split(rest, ":")
+		n, err := strconv.Atoi(f[0])
+		if err != nil || n != len(f)-1 {
+			panic("bad int array " + s)
+		}
+		arr := make([]int64, n)
+		for i := range arr {
+			arr[i], err = strconv.ParseInt(f[i+1], 10, 64)
+			if err != nil {
+				panic(err)
+			}
+		}
+		return &modelv1.TagValue{Value: &modelv1.TagValue_IntArray{IntArray: &modelv1.IntArray{Value: arr}}}
+	case 't':
+		f := strings.Split(rest, ":")
+		sec, err1 := strconv.ParseInt(f[0], 10, 64)
+		nan, err2 := strconv.ParseInt(f[1], 10, 32)
+		if err1 != nil || err2 != nil {
+			panic("bad timestamp " + s)
+		}
+		return &modelv1.TagValue{Value: &modelv1.TagValue_Timestamp{Timestamp: &timestamppb.Timestamp{Seconds: sec, Nanos: int32(nan)}}}
+	case 'T':
+		return &modelv1.TagValue{Value: &modelv1.TagValue_Timestamp{}}
+	case 'b':
+		return &modelv1.TagValue{Value: &modelv1.TagValue_BinaryData{BinaryData: []byte(unhexS(rest))}}
+	}
+	panic("bad param " + s)
+}
+
+func parseParams(s string) []*modelv1.TagValue {
+	if s == "-" {
+		return nil
+	}
+	f := strings.Split(s, ",")
+	out := make([]*modelv1.TagValue, len(f))
+	for i, p := range f {
+		out[i] = parseParam(p)
+	}
+	return out
+}
+
+// errKind maps a bind error to a small enum: ERR:<kind>:<1-based parameter position, 0 if none>.
+func errKind(err error) string {
+	m := err.Error()
+	idx := 0
+	if i := strings.Index(m, "parameter #"); i >= 0 {
+		j := i + len("parameter #")
+		k := j
+		for k < len(m) && m[k] >= '0' && m[k] <= '9' {
+			k++
+		}
+		idx, _ = strconv.Atoi(m[j:k])
+	}
+	kind := "other"
+	switch {
+	case strings.Contains(m, "already bound"):
+		kind = "rebind"
+	case strings.Contains(m, "parameter count mismatch"):
+		kind = "count"
+	case strings.Contains(m, "has no value"):
+		kind = "novalue"
+	case strings.Contains(m, "invalid timestamp parameter"):
+		kind = "ts"
+	case strings.Contains(m, "must not be empty"):
+		kind = "empty"
+	case strings.Contains(m, "out of range"):
+		kind = "range"
+	case strings.Contains(m, "only accepts"):
+		kind = "type"
+	}
+	return fmt.Sprintf("ERR:%s:%d", kind, idx)
+}
+
+// ---------------------------------------------------------------------------------------------
+// request canonicalisation
+
+var transformer = bydbql.NewTransformer(fakeRepo{})
+
+func projAll(g *bydbql.Grammar) bool {
+	return g != nil && g.Select != nil && g.Select.Projection != nil && g.Select.Projection.All
+}
+
+// reqSig renders a transform result as "<type>.<sha1 of the deterministic encoding without time_range>@<begin_ms>:<end_ms>".
+// SELECT * projections are built by iterating a Go map, so their order is sorted first (upstream's own
+// equivalence test does the same).
+func reqSig(res *bydbql.TransformResult, err error) string {
+	if err != nil {
+		h := sha1.Sum([]byte(err.Error()))
+		return "E:" + hex.EncodeToString(h[:4])
+	}
+	m := proto.Clone(res.QueryRequest)
+	if projAll(res.Original) {
+		switch r := m.(type) {
+		case *streamv1.QueryRequest:
+			sortProjection(r.Projection)
+		case *measurev1.QueryRequest:
+			sortProjection(r.TagProjection)
+			if r.FieldProjection != nil {
+				sort.Strings(r.FieldProjection.Names)
+			}
+		case *propertyv1.QueryRequest:
+			sort.Strings(r.TagProjection)
+		}
+	}
+	tr := "nil"
+	rm := m.ProtoReflect()
+	if fd := rm.Descriptor().Fields().ByName("time_range"); fd != nil && rm.Has(fd) {
+		t := rm.Get(fd).Message().Interface().(*modelv1.TimeRange)
+		tr = fmt.Sprintf("%d:%d", t.GetBegin().AsTime().UnixMilli(), t.GetEnd().AsTime().UnixMilli())
+		rm.Clear(fd)
+	}
+	b, mErr := proto.MarshalOptions{Deterministic: true}.Marshal(m)
+	if mErr != nil {
+		return "x(marshal:" + mErr.Error() + ")"
+	}
+	h := sha1.Sum(append([]byte(string(rm.Descriptor().FullName())+"|"+res.Type.String()+"|"), b...))
+	return hex.EncodeToString(h[:8]) + "@" + tr
+}
+
+func sortProjection(p *modelv1.TagProjection) {
+	if p == nil {
+		return
+	}
+	for _, f := range p.TagFamilies {
+		sort.Strings(f.Tags)
+	}
+	sort.Slice(p.TagFamilies, func(i, j int) bool { return p.TagFamilies[i].Name < p.TagFamilies[j].Name })
+}
+
+var _ protoreflect.Message
+
+// ---------------------------------------------------------------------------------------------
+
+var (
+	ctx   = context.Background()
+	cache = lgrpc.NewVerifC20Cache(8, 1<<16)
+)
+
+// oneShot runs the in-place path: ParseQuery; BindParams; Transform.
+func oneShot(stmt string, params []*modelv1.TagValue) (dump string, sig string) {
+	g, err := bydbql.ParseQuery(stmt)
+	if err != nil {
+		return "PARSEERR", "-"
+	}
+	before := dumpGrammar(g)
+	if bErr := bydbql.BindParams(g, params); bErr != nil {
+		// the documented contract: a failed bind leaves the grammar unusable. It must then be rejected by
+		// Transform, unless nothing at all was bound (a statement without placeholders given surplus parameters
+		// is still the untouched literal grammar).
+		res, tErr := transformer.Transform(ctx, g)
+		if tErr != nil {
+			return errKind(bErr), "REJ"
+		}
+		if dumpGrammar(g) == before && bydbql.VerifC20CountUnbound(g) == 0 {
+			return errKind(bErr), "UNTOUCHED"
+		}
+		return errKind(bErr), "LEAK:" + reqSig(res, nil)
+	}
+	d := dumpGrammar(g)
+	res, tErr := transformer.Transform(ctx, g)
+	return d, reqSig(res, tErr)
+}
+
+// literal runs the literal statement through the same one-shot API (BindParams with no parameters).
+func literal(lit string) (dump string, sig string) {
+	if lit == "" {
+		return "-", "-"
+	}
+	return oneShot(lit, nil)
+}
+
+func b01(b bool) string { return drv.B01(b) }
+
+func handle(f []string) string {
+	if len(f) == 0 {
+		return "bad-op"
+	}
+	op := f[0]
+	if strings.HasPrefix(op, "bind.") {
+		op = "bind"
+	}
+	switch op {
+	case "ast":
+		if len(f) != 2 {
+			return "bad-op"
+		}
+		g, err := bydbql.ParseQuery(unhexS(f[1]))
+		if err != nil {
+			return "PARSEERR"
+		}
+		return "T=" + dumpGrammar(g)
+	case "why":
+		// diagnostic: why <stmt-hex> <params> -> bind/transform error text or the request in prototext (hex)
+		if len(f) != 3 {
+			return "bad-op"
+		}
+		g, err := bydbql.ParseQuery(unhexS(f[1]))
+		if err != nil {
+			return "PARSEERR " + hx(err.Error())
+		}
+		if bErr := bydbql.BindParams(g, parseParams(f[2])); bErr != nil {
+			return "BINDERR " + hx(bErr.Error())
+		}
+		res, tErr := transformer.Transform(ctx, g)
+		if tErr != nil {
+			return "TRANSFORMERR " + hx(tErr.Error())
+		}
+		return "OK " + hx(prototext.MarshalOptions{Multiline: false}.Format(res.QueryRequest))
+	case "bind":
+		if len(f) != 7 {
+			return "bad-op"
+		}
+		stmt := unhexS(f[1])
+		lit1, lit2 := "", ""
+		if f[3] != "-" {
+			lit1 = unhexS(f[3])
+		}
+		if f[4] != "-" {
+			lit2 = unhexS(f[4])
+		}
+		p1, p2 := parseParams(f[5]), parseParams(f[6])
+
+		g0, err := bydbql.ParseQuery(stmt)
+		if err != nil {
+			return "PARSEERR"
+		}
+		tdump := dumpGrammar(g0)
+		if tdump != f[2] {
+			return "ASTMISMATCH T=" + tdump
+		}
+		// in-place path, twice on fresh parses
+		b1, rb1 := oneShot(stmt, p1)
+		b2, rb2 := oneShot(stmt, p2)
+		// rebinding a bound grammar must be rejected
+		rebind := "-"
+		if g, pErr := bydbql.ParseQuery(stmt); pErr == nil && bydbql.BindParams(g, p1) == nil {
+			before := dumpGrammar(g)
+			if rErr := bydbql.BindParams(g, p2); rErr == nil {
+				rebind = "accepted"
+			} else if dumpGrammar(g) != before {
+				rebind = "mutated"
+			} else {
+				rebind = "rejected"
+			}
+		}
+		// literal path
+		l1, rl1 := literal(lit1)
+		l2, rl2 := literal(lit2)
+
+		// prepared path
+		ps, pErr := bydbql.Prepare(stmt)
+		if pErr != nil {
+			return "PREPAREERR"
+		}
+		tmpl := bydbql.VerifC20Template(ps)
+		pt := dumpGrammar(tmpl)
+		spc := dumpSpecs(ps)
+		o1, o2, rp1, rp2, rp1again, o1stable := "", "", "-", "-", "-", "1"
+		bq1, e1 := ps.Bind(p1)
+		if e1 != nil {
+			o1 = errKind(e1)
+		} else {
+			o1 = dumpOverlay(bq1)
+		}
+		bq2, e2 := ps.Bind(p2)
+		if e2 != nil {
+			o2 = errKind(e2)
+		} else {
+			o2 = dumpOverlay(bq2)
+			rp2 = reqSig(transformer.TransformBound(ctx, bq2))
+		}
+		if e1 == nil {
+			// bq1 is transformed only after a second Bind and Transform went through the shared template
+			rp1 = reqSig(transformer.TransformBound(ctx, bq1))
+			if dumpOverlay(bq1) != o1 {
+				o1stable = "0"
+			}
+			if bq3, e3 := ps.Bind(p1); e3 != nil {
+				rp1again = errKind(e3)
+			} else {
+				rp1again = reqSig(transformer.TransformBound(ctx, bq3))
+				if dumpOverlay(bq3) != o1 {
+					o1stable = "0"
+				}
+			}
+		}
+		pure := b01(dumpGrammar(tmpl) == pt && dumpSpecs(ps) == spc && bydbql.VerifC20CountUnbound(tmpl) == ps.NumPlaceholders())
+
+		// liaison path: cache.getOrPrepare; Bind; TransformBound — params1, params2, params1 (miss/hit/hit)
+		viaCache := func(params []*modelv1.TagValue) string {
+			st, how, cErr := cache.GetOrPrepare(stmt)
+			if cErr != nil {
+				return "PREPAREERR"
+			}
+			tag := "?"
+			if how != "" {
+				tag = how[:1]
+			}
+			bq, bErr := st.Bind(params)
+			if bErr != nil {
+				return tag + errKind(bErr)
+			}
+			return tag + reqSig(transformer.TransformBound(ctx, bq))
+		}
+		rc1 := viaCache(p1)
+		rc2 := viaCache(p2)
+		rc1again := viaCache(p1)
+
+		model := fmt.Sprintf("T=%s B1=%s B2=%s PT=%s SP=%s O1=%s O2=%s", tdump, b1, b2, pt, spc, o1, o2)
+		oracle := fmt.Sprintf("PURE=%s O1STABLE=%s REBIND=%s L1=%s L2=%s RL1=%s RL2=%s RB1=%s RB2=%s RP1=%s RP2=%s RP1X=%s RC1=%s RC2=%s RC1X=%s",
+			pure, o1stable, rebind, l1, l2, rl1, rl2, rb1, rb2, rp1, rp2, rp1again, rc1, rc2, rc1again)
+		return model + " ## " + oracle
+	}
+	return "bad-op"
+}
+
 func main() {
-	c := lgrpc.NewVerifC20Cache(4, 0)
-	ps, r, err := c.GetOrPrepare("SELECT * FROM STREAM sw IN default WHERE a = ?")
-	fmt.Println(ps.NumPlaceholders(), r, err)
+	_ = time.Now
+	_ = os.Stderr
+	drv.Run(handle)
 }
